@@ -88,7 +88,8 @@ class Env:
         import_repo()
         import cloudsync.sync.state as S
         from cloudsync.providers.mock import MockProvider
-        from cloudsync.types import FILE, LOCAL, REMOTE
+        from cloudsync.types import FILE, DIRECTORY, LOCAL, REMOTE
+        self.DIRECTORY = DIRECTORY
         from cloudsync.types import OInfo
 
         class ScriptedProvider(MockProvider):
@@ -97,6 +98,13 @@ class Env:
             def __init__(self, *a, **kw):
                 super().__init__(*a, **kw)
                 self.script = {}
+                self.answer_paths = False
+
+            def info_path(self, path, use_cache=True):
+                # path-id provider in the state-level tie: every path the engine asks about exists (its id is its path)
+                if self.answer_paths:
+                    return OInfo(otype=FILE, oid=path, hash=None, path=path, size=0, mtime=None)
+                return super().info_path(path, use_cache=use_cache)
 
             def info_oid(self, oid, use_cache=True):
                 if oid in self.script:
@@ -133,11 +141,30 @@ def num(x):
     return int(x) if x.denominator == 1 else float(x)
 
 
+def cfg_prio(cfg, side, path):
+    """the application's prioritize: rule-based (value of the first matching name suffix, else of the top-level folder, else 0)
+    or, for the older tables, a path -> (local, remote) map"""
+    rules = cfg.get("rules")
+    if rules is not None:
+        for sfx, v in rules["sfx"]:
+            if path.endswith(sfx):
+                return F(v)
+        parts = path.split("/")
+        if len(parts) > 1:
+            for top, v in rules["top"]:
+                if parts[1] == top:
+                    return F(v)
+        return F(0)
+    return F(cfg["prio"].get(path, ("0", "0"))[side])
+
+
 class RealTable:
     def __init__(self, env, cfg):
         self.env, self.cfg = env, cfg
         env.clock.t = float(cfg["t0"])
-        pl, pr = env.ScriptedProvider(False, True), env.ScriptedProvider(False, True)
+        oip = cfg.get("oip", (False, False))
+        pl, pr = env.ScriptedProvider(bool(oip[0]), True), env.ScriptedProvider(bool(oip[1]), True)
+        pl.answer_paths, pr.answer_paths = bool(oip[0]), bool(oip[1])
         pl.default_sleep = float(cfg["punt"][0] * 10)
         pr.default_sleep = float(cfg["punt"][1] * 10)
         self.pl = pl
@@ -150,7 +177,7 @@ class RealTable:
         self.oids = set()
 
     def prio(self, side, path):
-        return F(self.cfg["prio"].get(path, ("0", "0"))[side])
+        return cfg_prio(self.cfg, side, path)
 
     def ent(self, i):
         if not (0 <= i < len(self.ents)):
@@ -174,7 +201,7 @@ class RealTable:
         if k == "update":
             _, t, s, oid, path = op
             owner = st.lookup_oid(s, oid)
-            if owner is None and oid in self.oids:
+            if owner is None and oid in self.oids and not self.cfg.get("oip", (False, False))[s]:
                 raise Invalid()
             clock.t = float(t)
             st.update(s, self.env.FILE, oid, path=path, hash=b"h")
@@ -188,6 +215,21 @@ class RealTable:
             _, s, oid, path = op
             self.provs[s].script[oid] = path
             return ("hdr",)
+        if k == "updatedir":
+            _, t, s, oid, prior, path = op
+            if st.lookup_oid(s, oid) is None and oid in self.oids and not (prior and st.lookup_oid(s, prior) is not None) \
+                    and not self.cfg.get("oip", (False, False))[s]:
+                raise Invalid()
+            clock.t = float(t)
+            st.update(s, self.env.DIRECTORY, oid, path=path, prior_oid=prior)
+            e = st.lookup_oid(s, oid)
+            if e is None:
+                raise Invalid()
+            if id(e) not in self.index:
+                self.index[id(e)] = len(self.ents)
+                self.ents.append(e)
+            self.oids.add(oid)
+            return ("id", self.eid(e))
         if k == "attach":
             _, s, i, oid, path = op
             e = self.ent(i)
@@ -235,6 +277,9 @@ def op_line(op, table):
     if k == "update":
         _, t, s, oid, path = op
         return "update %s %s %s %s %s" % (SIDE[s], enc_str(oid), enc_str(path), fr(table.prio(s, path) if path else 0), fr(t))
+    if k == "updatedir":
+        _, t, s, oid, prior, path = op
+        return "updatedir %s %s %s %s %s" % (SIDE[s], enc_str(oid), enc_str(prior), enc_str(path), fr(t))
     if k == "info":
         _, s, oid, path = op
         return "info %s %s %s %s" % (SIDE[s], enc_str(oid), enc_str(path), fr(table.prio(s, path) if path else 0))
@@ -258,10 +303,31 @@ def op_line(op, table):
     raise HarnessError("bad op")
 
 
+def dec_line(ln):
+    """a driver line with its encoded strings made readable (diagnostics)"""
+    out = []
+    for t in ln.split():
+        if t and all(c.isdigit() or c == "." for c in t) and ("." in t or (t.isdigit() and 32 <= int(t) < 127 and False)):
+            try:
+                out.append(dec_str(t))
+                continue
+            except Exception:  # noqa
+                pass
+        out.append(t)
+    return " ".join(out)
+
+
 def header_lines(cfg, table):
     out = ["reset %s %s %s" % (fr(cfg["punt"][0]), fr(cfg["punt"][1]), fr(cfg["t0"]))]
     for p in cfg["paths"]:
         out.append("dir %s %s" % (enc_str(p), enc_str(table.pl.dirname(p))))
+    if cfg.get("rules") is not None:
+        for sfx, v in cfg["rules"]["sfx"]:
+            out.append("rule sfx %s %s" % (enc_str(sfx), fr(F(v))))
+        for top, v in cfg["rules"]["top"]:
+            out.append("rule top %s %s" % (enc_str(top), fr(F(v))))
+    if cfg.get("oip"):
+        out.append("oip %s %s" % (enc_bool(cfg["oip"][0]), enc_bool(cfg["oip"][1])))
     return out
 
 
@@ -270,7 +336,8 @@ def op_json(op):
 
 
 def cfg_json(cfg):
-    return {"punt_secs": [str(x) for x in cfg["punt"]], "t0": str(cfg["t0"]), "prioritize": cfg["prio"], "paths": cfg["paths"]}
+    return {"punt_secs": [str(x) for x in cfg["punt"]], "t0": str(cfg["t0"]), "prioritize": cfg.get("prio", {}), "paths": cfg["paths"],
+            "prioritize_rules": cfg.get("rules"), "oid_is_path": list(cfg.get("oip", (False, False)))}
 
 
 # ------------------------------------------------------------------ generator (runs the real table while generating)
@@ -281,15 +348,18 @@ AGES = [F(0), F(0), F(1, 8), F(1, 2), F(1), F(2), F(10), F(10), F(100)]
 STEPS = [F(0), F(0), F(0), F(1, 8), F(1, 4), F(1, 2), F(1), F(2), F(5), F(10), F(-1)]
 
 
+TOPS = ["d1", "d2", "f", "g", "m1", "m2", "m3", "m4"]
+SFXS = ["b", "x", "k"]
+
+
 def gen_cfg(rng):
-    prio = {}
-    for p in PATHS:
-        if rng.random() < 0.35:
-            a = rng.choice(PRIOS)
-            b = rng.choice(PRIOS + [F(0)]) if rng.random() < 0.2 else a
-            prio[p] = (str(a), str(b))
+    """the application's prioritize is path-dependent: classes (negative, zero, positive) keyed on the top-level folder and on the
+    name suffix; providers are id-style or path-style"""
+    rules = {"sfx": [[x, str(rng.choice(PRIOS))] for x in SFXS if rng.random() < 0.25],
+             "top": [[x, str(rng.choice(PRIOS))] for x in TOPS if rng.random() < 0.45]}
     return {"punt": (rng.choice([F(1, 4), F(1, 2), F(1, 8), F(1)]), rng.choice([F(1, 4), F(1, 2), F(1), F(3, 2)])),
-            "t0": F(rng.randint(1000, 5000)) + F(rng.randint(0, 7), 8), "prio": prio, "paths": list(PATHS)}
+            "t0": F(rng.randint(1000, 5000)) + F(rng.randint(0, 7), 8), "rules": rules, "paths": list(PATHS),
+            "oip": (rng.random() < 0.3, rng.random() < 0.3)}
 
 
 def on_grid(x):
@@ -354,14 +424,70 @@ class Gen:
             out.append(("change", now, age))
         return out
 
+    def is_dir(self, e, s):
+        return e[s].otype == self.tb.env.DIRECTORY
+
+    def paths_on(self, s):
+        return [e[s].path for e in self.tb.ents if e[s].path]
+
+    def folder_ops(self):
+        """folders: create one, put a file below one, rename / move one (with its descendants) across priority classes"""
+        rng, tb = self.rng, self.tb
+        s = rng.randint(0, 1)
+        oip = tb.cfg.get("oip", (False, False))[s]
+        used = self.paths_on(s)
+        dirs = [e for e in tb.ents if self.is_dir(e, s) and e[s].path and e[s].oid]
+        r = rng.random()
+        if not dirs or r < 0.25:
+            cands = [p for p in ["/d1", "/d2", "/d1/s", "/d2/t", "/m1", "/m2", "/d1/s/u"] if p not in used]
+            if cands:
+                path = rng.choice(cands)
+                return [("updatedir", self.tick(), s, path if oip else self.fresh(s), None, path)]
+            return []
+        d = rng.choice(dirs)
+        if r < 0.6:
+            self.n_name = getattr(self, "n_name", 0) + 1
+            path = d[s].path + "/" + rng.choice(["a", "n%d" % self.n_name, "n%db" % self.n_name, "n%dk" % self.n_name, "n%dx" % self.n_name])
+            if path in used:
+                return []
+            return [("update", self.tick(), s, path if oip else self.fresh(s), path)]
+        # move the folder
+        self.n_name = getattr(self, "n_name", 0) + 1
+        old = d[s].path
+        if rng.random() < 0.55:
+            new = "/" + rng.choice(["m1", "m2", "m3", "m4", "q%d" % self.n_name])
+        else:
+            parents = [x[s].path for x in dirs if x is not d and not (x[s].path + "/").startswith(old + "/")]
+            if not parents:
+                return []
+            new = rng.choice(parents) + "/q%d" % self.n_name
+        if new == old or (new + "/").startswith(old + "/") or any(p == new or p.startswith(new + "/") for p in used):
+            return []
+        if oip:
+            return [("updatedir", self.tick(), s, new, d[s].oid, new)]
+        return [("updatedir", self.tick(), s, d[s].oid, None, new)]
+
     def next_ops(self):
         rng, tb = self.rng, self.tb
         n = len(tb.ents)
+        if rng.random() < 0.2:
+            ops = self.folder_ops()
+            if ops:
+                return ops
         r = rng.random()
         if n == 0 or r < 0.22:
             s = rng.randint(0, 1)
+            if tb.cfg.get("oip", (False, False))[s]:
+                # path-id side: an id is a path; plain files get unique names
+                self.n_name = getattr(self, "n_name", 0) + 1
+                path = "/f%d%s" % (self.n_name, rng.choice(["", "b", "k", "x"]))
+                same = [e for e in tb.ents if e[s].oid and e[s].path == e[s].oid and not self.is_dir(e, s)]
+                if same and rng.random() < 0.4:
+                    e0 = rng.choice(same)
+                    return [("update", self.tick(), s, e0[s].oid, e0[s].path)]      # a later modification at the same path
+                return [("update", self.tick(), s, path, path)]
             if n and rng.random() < 0.3:
-                cands = [(e[s].oid, e[s].path) for e in tb.ents if e[s].oid]
+                cands = [(e[s].oid, e[s].path) for e in tb.ents if e[s].oid and not self.is_dir(e, s)]
                 if cands:
                     oid, path = rng.choice(cands)
                     q = rng.random()
@@ -381,7 +507,7 @@ class Gen:
         if r < 0.30:
             s = rng.randint(0, 1)
             cands = [j for j, x in enumerate(tb.ents) if not x[s].oid]
-            if cands:
+            if cands and not tb.cfg.get("oip", (False, False))[s]:
                 j = rng.choice(cands)
                 other = tb.ents[j][1 - s].path
                 path = other if other and rng.random() < 0.7 else rng.choice(PATHS)
@@ -1002,6 +1128,37 @@ class Checker:
     def __init__(self, tb):
         self.tb = tb
         self.stamps = []
+        self.tainted = set()        # entries whose priority was written by hand (setprio) since their last path change
+
+    def priority_current(self, before, after, op):
+        """PriorityCurrent on the implementation: the priority an entry HAS is the application's prioritize() of one of its
+        current paths, plus the punts since (or a non-negative punt count after finished() reset it); an entry without a path
+        has a non-negative integer priority.  Entries whose priority was set by hand are exempt until their path changes."""
+        tb = self.tb
+        old = {x[0]: x for x in before[1]}
+        if op[0] == "setprio":
+            self.tainted.add(op[1])
+        for x in after[1]:
+            i, prio, _lc, _rc, lp, rp = x[:6]
+            if i in old and (old[i][4], old[i][5]) != (lp, rp):
+                self.tainted.discard(i)
+            if i in self.tainted:
+                continue
+
+            def nat(v):
+                return v >= 0 and float(v) == int(v)
+            paths = [(s, p) for s, p in ((0, lp), (1, rp)) if p]
+            if not paths:
+                ok = nat(F(prio))
+            else:
+                ok = any(nat(F(prio) - tb.prio(s, p)) or nat(F(prio)) for s, p in paths)
+            if not ok:
+                return {"statement": "PriorityCurrent: the priority of entry %d (%s) is not the application's prioritize() of its current "
+                                     "path plus punts: a path change (its own or its folder's) did not re-prioritise it — a stale negative "
+                                     "priority propagates without ageing, a stale class breaks 'lower priority first'" % (i, prio),
+                        "entry": i, "priority": prio, "paths": [lp, rp],
+                        "prioritize_of_paths": [str(tb.prio(s, p)) for s, p in paths]}
+        return None
 
     def step(self, op):
         """apply `op` to the real table and check it; returns a failure dict or None (raises Invalid)"""
@@ -1023,11 +1180,14 @@ class Checker:
             if i in pend and not (truthy(lc) or truthy(rc)):
                 return {"statement": "reachable_inv / changeSt_sound: a pending entry must carry a change", "entry": i,
                         "changed": [lc, rc], "pending_set": sorted(pend)}
+        bad = self.priority_current(before, after, op)
+        if bad:
+            return bad
         if op[0] == "change":
             return check_query(tb, op, r[1], None)
-        if op[0] in ("update", "mark"):
+        if op[0] in ("update", "mark", "updatedir"):
             s = op[2]
-            e = tb.ents[r[1]] if op[0] == "update" else tb.ents[op[3]]
+            e = tb.ents[r[1]] if op[0] in ("update", "updatedir") else tb.ents[op[3]]
             c = e[s].changed
             stamps = self.stamps
             if stamps and not c > stamps[-1]:
@@ -1111,7 +1271,7 @@ def oracle(env, seed, tier):
 
 def parse_op(o):
     k = o[0]
-    if k in ("update", "mark"):
+    if k in ("update", "mark", "updatedir"):
         return (k, F(o[1])) + tuple(o[2:])
     if k == "setprio":
         return (k, o[1], F(o[2]))
@@ -1121,8 +1281,13 @@ def parse_op(o):
 
 
 def cfg_from_json(c):
-    return {"punt": tuple(F(x) for x in c["punt_secs"]), "t0": F(c["t0"]), "prio": {k: tuple(v) for k, v in c["prioritize"].items()},
-            "paths": c["paths"]}
+    out = {"punt": tuple(F(x) for x in c["punt_secs"]), "t0": F(c["t0"]), "prio": {k: tuple(v) for k, v in c["prioritize"].items()},
+           "paths": c["paths"]}
+    if c.get("prioritize_rules") is not None:
+        out["rules"] = c["prioritize_rules"]
+    if c.get("oid_is_path"):
+        out["oip"] = tuple(c["oid_is_path"])
+    return out
 
 
 def rerun(env, cfgj, opsj):
@@ -1205,6 +1370,16 @@ def run(res, tier, seed, proof_broken, replay):
         with open(replay) as f:
             rp = json.load(f)
         case = rp.get("failing", rp)
+        if "scenario" in case:
+            lines, trace = c17lib.run_prio_case(case["scenario"])
+            f = c17lib.judge_prio(case["scenario"], lines, trace, run_driver("sched", lines))
+            print("REPLAY %s: %s" % (replay, "FAILS " + f["statement"] if f else "passes"))
+            res.coverage.update({"evaluations": len(lines), "programs": 1, "distinct_nontrivial": 1, "rule": "replay of one recorded scenario",
+                                 "samples": [case["scenario"]], "disagreements_checked": 0, "fingerprints": fingerprints(FP_SPEC)})
+            if f:
+                res.violation({"property": PID, "kind": "statement fails on implementation (replay)",
+                               "failing": dict(f, scenario=case["scenario"])}, name="%s_replay_%d.json" % (PID, seed))
+            return
         if "case" in case:
             # a starvation scenario
             lines, hnames, info = c17lib.run_case(case["case"])
@@ -1255,7 +1430,8 @@ def run(res, tier, seed, proof_broken, replay):
         res.coverage.update(cov)
         res.coverage.update({
             "evaluations": len(lines) + len(loop_lines), "programs": ntab + nloop, "distinct_nontrivial": distinct,
-            "rule": "(a) random tables built through the real SyncState API (update with and without a path / ent[side].oid,path,sync_path,"
+            "rule": "(a) random tables built through the real SyncState API (folder events with descendants carried along - renames/moves "
+                    "across the classes of a path-dependent prioritize, id-style and path-style providers - / update with and without a path / ent[side].oid,path,sync_path,"
                     "changed writes on sides with and without an id / mark_changed / punt / priority writes / set_aged / finished) with a "
                     "prioritize function returning negative, zero and positive values and scripted provider answers for the fill-in loop, "
                     "virtual clock on a 1/8 s grid incl. repeated and backward readings; after every call the full scheduling state "
@@ -1293,9 +1469,17 @@ def run(res, tier, seed, proof_broken, replay):
     # 3c. the starvation family on the real engine (every exception class x every provider call kind + quota + lock), judged by
     #     the Lean monitor.  A rejected trace is a concrete violating history (like a refinement tie), reported on its own.
     res.coverage.setdefault("known_finding_replay", {})["engine_level_echo_variant"] = c17lib.replay_echo_variant()
+    # 3d. priorities follow the CURRENT path, engine level: folder with descendants moved across the application's classes, then
+    #     descendants modified at their new paths under ageing > 0 (id-style and path-style providers), Lean monitor
+    pcases = c17lib.prio_family(rng_for(seed, "c17prio"), tier)
+    pn, pfails, phist = c17lib.run_prio_family(pcases)
+    res.coverage["priority_family"] = dict(phist, sample=pcases[0] if pcases else None,
+                                           classes=c17lib.CLASSES, rule="top-level folder below the root; suffix .tmp -> 3")
+    res.coverage["evaluations"] = res.coverage.get("evaluations", 0) + pn
+    res.coverage["programs"] = res.coverage.get("programs", 0) + len(pcases)
     cases, classes, unknown = c17lib.family(rng_for(seed, "c17starve"), tier)
     nlines, sfails, shist = c17lib.run_family(cases)
-    if broken and not sfails and not hit:
+    if broken and not sfails and not hit and not pfails:
         # search wider before giving up: more layouts of the same family
         more, _c, _u = c17lib.family(rng_for(seed, "c17starve-search"), "thorough" if tier == "quick" else "thorough")
         _n, sfails, _h = c17lib.run_family(more)
@@ -1307,6 +1491,15 @@ def run(res, tier, seed, proof_broken, replay):
     res.coverage["disagreements_checked"] = res.coverage.get("disagreements_checked", 0) + len(sfails)
     if unknown:
         res.notes.append("exception classes not in the class map of tools/gen_exc_table.py: %s" % unknown)
+    if pfails and not hit:
+        c0, f0, tr0 = pfails[0]
+        hit = {"statement": f0["statement"], "scenario": c0, "monitor": f0["monitor"], "iteration": f0["iteration"],
+               "observation": f0["observation"], "trace": [(t["t"], t["attempted"]) for t in tr0],
+               "how": "harness/c17lib.py run_prio_case(scenario): real CloudSync over two MockProviders (virtual clock); the application's "
+                      "prioritize is keyed on the top-level folder (urgent -1, normal 0, later 1, slow 2) and the suffix .tmp (3); the folder "
+                      "D with its descendants is moved from /local/<from> to /local/<to> and synced, then the listed descendants and a control "
+                      "file are modified with ageing = age; every SyncManager.do is judged by the Lean monitor; ./check C17 --replay <file>"}
+    res.coverage["disagreements_checked"] = res.coverage.get("disagreements_checked", 0) + len(pfails)
     strong = [x for x in sfails if any(k in x[1]["statement"] for k in ("starvation", "did not defer", "dropped"))]
     if strong or (sfails and not hit):
         # prefer a scenario in which a healthy entry demonstrably starves
